@@ -1312,3 +1312,207 @@ Proof.
 Qed.
 
 End Stacks.
+
+(** ** Key predicates carried by all operations *)
+
+Definition keys_all (P : bytes -> Prop) (l : list kv) : Prop := forall e, In e l -> P (fst e).
+
+Lemma mem_put_In k v m e : In e (mem_put k v m) -> fst e = k \/ In e m.
+Proof.
+  induction m as [|[k' v'] r IH]; simpl.
+  - intros [<-|[]]; left; reflexivity.
+  - destruct (bytes_cmp k k') eqn:C; simpl.
+    + intros [<-|H]; [left; simpl; symmetry; apply cmp_eq; exact C | right; right; exact H].
+    + intros [<-|[<-|H]]; [left; reflexivity | right; left; reflexivity | right; right; exact H].
+    + intros [<-|H]; [right; left; reflexivity|]. destruct (IH H); [left; assumption | right; right; assumption].
+Qed.
+
+Lemma mem_put_keys (P : bytes -> Prop) k v m : P k -> keys_all P m -> keys_all P (mem_put k v m).
+Proof. intros Hk Hm e He. destruct (mem_put_In _ _ _ _ He) as [->|H]; auto. Qed.
+
+Lemma store_delete_In k m e : In e (store_delete k m) -> In e m.
+Proof.
+  induction m as [|[k' v'] r IH]; simpl; [tauto|].
+  destruct (bytes_cmp k k'); simpl; [auto | auto | intros [<-|H]; auto].
+Qed.
+
+Lemma store_delete_keys (P : bytes -> Prop) k m : keys_all P m -> keys_all P (store_delete k m).
+Proof. intros Hm e He. apply Hm, (store_delete_In k); exact He. Qed.
+
+Lemma replay_into_keys (P : bytes -> Prop) m : forall ov, keys_all P m -> keys_all P ov -> keys_all P (replay_into m ov).
+Proof.
+  unfold replay_into. induction m as [|[k v] r IH]; simpl; intros ov Hm Ho; [exact Ho|].
+  apply IH; [intros e He; apply Hm; right; exact He|].
+  assert (Pk : P k) by (apply (Hm (k, v)); left; reflexivity).
+  destruct (is_empty v); apply mem_put_keys; auto.
+Qed.
+
+Lemma commit_to_keys (P : bytes -> Prop) m : forall st, keys_all P m -> keys_all P st -> keys_all P (commit_to m st).
+Proof.
+  unfold commit_to. induction m as [|[k v] r IH]; simpl; intros st Hm Ho; [exact Ho|].
+  apply IH; [intros e He; apply Hm; right; exact He|].
+  assert (Pk : P k) by (apply (Hm (k, v)); left; reflexivity).
+  destruct (is_empty v); [apply store_delete_keys | apply mem_put_keys]; auto.
+Qed.
+
+Lemma merge_In m : forall b e, In e (merge m b) -> In e m \/ In e b.
+Proof.
+  induction m as [|[km vm] m' IHm]; intros b e; [right; assumption|].
+  induction b as [|[kb vb] b' IHb]; [rewrite merge_nil_r; left; assumption|].
+  rewrite merge_cons. destruct (bytes_cmp km kb); intros [<-|H].
+  - left; left; reflexivity.
+  - destruct (IHm _ _ H); [left; right; assumption | right; right; assumption].
+  - left; left; reflexivity.
+  - destruct (IHm _ _ H); [left; right; assumption | right; assumption].
+  - right; left; reflexivity.
+  - destruct (IHb H); [left; assumption | right; right; assumption].
+Qed.
+
+Lemma apply_layer_keys (P : bytes -> Prop) m b : keys_all P m -> keys_all P b -> keys_all P (apply_layer m b).
+Proof.
+  intros Hm Hb e He. unfold apply_layer, live in He. apply filter_In in He. destruct He as [He _].
+  destruct (merge_In _ _ _ He); auto.
+Qed.
+
+Lemma filter_keys (P : bytes -> Prop) (f : kv -> bool) l : keys_all P l -> keys_all P (filter f l).
+Proof. intros H e He. apply filter_In in He. apply H; tauto. Qed.
+
+Lemma abs_block_keys (P : bytes -> Prop) s : keys_all P (st_overlay s) -> keys_all P (st_store s) -> keys_all P (abs_block s).
+Proof. intros Ho Hs. apply apply_layer_keys; [exact Ho|apply filter_keys; exact Hs]. Qed.
+
+Lemma abs_keys (P : bytes -> Prop) s : keys_all P (st_cache s) -> keys_all P (st_overlay s) -> keys_all P (st_store s) ->
+  keys_all P (abs s).
+Proof. intros Hc Ho Hs. apply apply_layer_keys; [exact Hc|apply abs_block_keys; auto]. Qed.
+
+(** ** iter_refines *)
+
+Lemma in_range_nonempty p k : p <> [] -> in_range (bytes_prefix p) k = true -> k <> [].
+Proof.
+  intros Hp H E; subst k. unfold in_range in H; simpl in H. destruct p; [congruence|]. discriminate.
+Qed.
+
+Theorem overlay_iter_refines s p :
+  sorted_state s -> keys_wf (st_overlay s) -> keys_wf (st_store s) ->
+  p <> [] \/ (nonempty_keys (st_overlay s) /\ nonempty_keys (st_store s)) ->
+  overlay_iterate s p = (with_prefix p (abs_block s), true).
+Proof.
+  intros Hs Wo Wst Hne. unfold overlay_iterate.
+  rewrite <- (filter_range_prefix p (abs_block s)) by (apply (abs_block_keys (fun k => wf_bytes k = true)); auto).
+  apply (iterate_first_ok (env_of s) (length (st_overlay s) + length (st_store s) + 5)).
+  - apply overlay_iter_first_ok; [exact Hs| |].
+    + destruct Hne as [Hp|[H _]]; [apply nonempty_keys_kfilter; intro k; apply in_range_nonempty; exact Hp|].
+      apply nonempty_keys_sub; exact H.
+    + destruct Hne as [Hp|[_ H]]; [apply nonempty_keys_kfilter; intro k; apply in_range_nonempty; exact Hp|].
+      apply nonempty_keys_sub; exact H.
+  - unfold enough_fuel, state_size; lia.
+  - pose proof (kfilter_length (in_range (bytes_prefix p)) (abs_block s)). pose proof (abs_block_length s).
+    unfold kfilter in *. unfold enough_fuel, state_size; lia.
+Qed.
+
+Theorem cache_iter_refines pfx s p :
+  sorted_state s -> keys_wf (st_cache s) -> keys_wf (st_overlay s) -> keys_wf (st_store s) ->
+  cache_iterate pfx s p = (strip_keys (with_prefix (pkey pfx p) (abs s)), true).
+Proof.
+  intros Hs Wc Wo Wst. unfold cache_iterate.
+  rewrite <- (filter_range_prefix (pkey pfx p) (abs s)) by (apply (abs_keys (fun k => wf_bytes k = true)); auto).
+  unfold cache_new_iterator.
+  rewrite (iterate_first_ok (env_of s) (enough_fuel s) (kfilter (in_range (bytes_prefix (pkey pfx p))) (abs s))).
+  - reflexivity.
+  - apply cache_iter_first_ok; [exact Hs|discriminate|]. intro k; apply in_range_nonempty; discriminate.
+  - lia.
+  - pose proof (kfilter_length (in_range (bytes_prefix (pkey pfx p))) (abs s)). pose proof (abs_length s).
+    unfold enough_fuel; lia.
+Qed.
+
+(** The listing an iterator returns is strictly ascending and contains exactly the live entries:
+    [abs] is key-sorted, has no empty value, and [kv_lookup] on it is what Get returns. *)
+Lemma with_prefix_sorted p l : ssorted l -> ssorted (with_prefix p l).
+Proof. apply filter_sorted. Qed.
+
+(** * F. Histories *)
+
+Definition good (s : state) : Prop :=
+  sorted_state s /\
+  keys_all (fun k => wf_bytes k = true /\ k <> []) (st_cache s) /\
+  keys_all (fun k => wf_bytes k = true /\ k <> []) (st_overlay s) /\
+  keys_all (fun k => wf_bytes k = true /\ k <> []) (st_store s).
+
+Lemma keys_okb_all l : keys_okb l = true <-> keys_all (fun k => wf_bytes k = true /\ k <> []) l.
+Proof.
+  unfold keys_okb, keys_all. rewrite forallb_forall. split; intros H e He; specialize (H e He).
+  - unfold key_ok in H. apply andb_prop in H. destruct H as [H1 H2]. split; [exact H1|].
+    destruct (fst e); [discriminate|congruence].
+  - destruct H as [H1 H2]. unfold key_ok. rewrite H1. destruct (fst e); [congruence|reflexivity].
+Qed.
+
+Lemma good_state_good s : good_state s = true <-> good s.
+Proof.
+  unfold good_state, good. rewrite !andb_true_iff, wf_state_sorted, !keys_okb_all. tauto.
+Qed.
+
+Lemma keys_all_weaken (P Q : bytes -> Prop) l : (forall k, P k -> Q k) -> keys_all P l -> keys_all Q l.
+Proof. intros H Hl e He; apply H, Hl, He. Qed.
+
+Lemma good_wf s : good s ->
+  keys_wf (st_cache s) /\ keys_wf (st_overlay s) /\ keys_wf (st_store s) /\
+  nonempty_keys (st_overlay s) /\ nonempty_keys (st_store s).
+Proof.
+  intros (_ & Hc & Ho & Hs). repeat split.
+  - exact (keys_all_weaken _ _ _ (fun k H => proj1 H) Hc).
+  - exact (keys_all_weaken _ _ _ (fun k H => proj1 H) Ho).
+  - exact (keys_all_weaken _ _ _ (fun k H => proj1 H) Hs).
+  - exact (keys_all_weaken _ _ _ (fun k H => proj2 H) Ho).
+  - exact (keys_all_weaken _ _ _ (fun k H => proj2 H) Hs).
+Qed.
+
+Lemma pkey_ok pfx k : byte_ok pfx && wf_bytes k = true -> wf_bytes (pkey pfx k) = true /\ pkey pfx k <> [].
+Proof. intro H. split; [exact H|discriminate]. Qed.
+
+Lemma impl_step_good pfx s o : good s -> hop_ok pfx o = true -> good (fst (impl_step pfx s o)).
+Proof.
+  intros Hg Hop. pose proof Hg as (Hs & Kc & Ko & Kst).
+  destruct o as [k v|k|k|p| | |k|p| ]; simpl in *.
+  - split; [apply cache_put_sorted; exact Hs|]. simpl.
+    split; [apply mem_put_keys; [apply pkey_ok; exact Hop|exact Kc] | split; assumption].
+  - split; [apply cache_delete_sorted; exact Hs|]. simpl.
+    split; [apply mem_put_keys; [apply pkey_ok; exact Hop|exact Kc] | split; assumption].
+  - exact Hg.
+  - destruct (cache_iterate pfx s p); exact Hg.
+  - split; [apply cache_commit_sorted; exact Hs|]. simpl. split; [intros e []|]. split; [|exact Kst].
+    apply replay_into_keys; assumption.
+  - split; [apply cache_reset_sorted; exact Hs|]. simpl. split; [intros e []|]. split; assumption.
+  - exact Hg.
+  - destruct (overlay_iterate s p); exact Hg.
+  - split; [apply overlay_commit_sorted; exact Hs|]. simpl. split; [exact Kc|]. split; [exact Ko|].
+    apply commit_to_keys; assumption.
+Qed.
+
+Lemma impl_step_refines pfx s o : good s -> hop_ok pfx o = true ->
+  spec_step pfx (abs_spec s) o = (abs_spec (fst (impl_step pfx s o)), snd (impl_step pfx s o)).
+Proof.
+  intros Hg Hop. pose proof (good_wf s Hg) as (Wc & Wo & Wst & No & Nst). destruct Hg as (Hs & _).
+  destruct o as [k v|k|k|p| | |k|p| ]; simpl.
+  - destruct (cache_put_refines pfx k v s Hs) as [E1 E2]. unfold abs_spec. rewrite E1, E2. reflexivity.
+  - destruct (cache_delete_refines pfx k s Hs) as [E1 E2]. unfold abs_spec. rewrite E1, E2. reflexivity.
+  - rewrite (cache_get_refines pfx s k Hs). reflexivity.
+  - rewrite (cache_iter_refines pfx s p Hs Wc Wo Wst). reflexivity.
+  - destruct (commit_cache_abs s Hs) as (_ & _ & _ & E1 & E2). unfold abs_spec. rewrite E1, E2. reflexivity.
+  - destruct (reset_abs s) as (_ & E1 & E2). unfold abs_spec. rewrite E1, E2. reflexivity.
+  - rewrite (overlay_get_refines s k Hs). reflexivity.
+  - rewrite (overlay_iter_refines s p Hs Wo Wst (or_intror (conj No Nst))). reflexivity.
+  - destruct (overlay_commit_abs s Hs) as (E0 & E1 & E2). unfold abs_spec. rewrite E0, E1, E2. reflexivity.
+Qed.
+
+Theorem history_refines pfx : forall ops s, good s -> forallb (hop_ok pfx) ops = true ->
+  spec_run pfx (abs_spec s) ops = (abs_spec (fst (impl_run pfx s ops)), snd (impl_run pfx s ops)) /\
+  good (fst (impl_run pfx s ops)).
+Proof.
+  induction ops as [|o r IH]; intros s Hg Hops; simpl.
+  - split; [reflexivity|exact Hg].
+  - simpl in Hops. apply andb_prop in Hops. destruct Hops as [Ho Hr].
+    rewrite (impl_step_refines pfx s o Hg Ho).
+    pose proof (impl_step_good pfx s o Hg Ho) as Hg1.
+    destruct (impl_step pfx s o) as [s1 o1]. simpl in *.
+    destruct (IH s1 Hg1 Hr) as [E Hg2]. rewrite E.
+    destruct (impl_run pfx s1 r) as [s2 o2]. simpl in *. split; [reflexivity|exact Hg2].
+Qed.
